@@ -1033,9 +1033,32 @@ def _check_callback_stateless(ctx: Ctx, outer: FuncInfo, rule: str) -> None:
                 nested.append(d)
                 work.append(d)
     outer_locals = {x.id for x in ast.walk(outer.node) if isinstance(x, ast.Name) and isinstance(x.ctx, ast.Store)} | set(outer.params)
+    # locals of the enclosing call that hold a one-shot iterator (a generator expression, map / filter / zip / finditer ...):
+    # the first match that walks it leaves nothing for the later ones
+    one_shot: dict[str, str] = {}
+    for st in walk_no_nested(outer.node):
+        if isinstance(st, ast.Assign) and len(st.targets) == 1 and isinstance(st.targets[0], ast.Name):
+            v = st.value
+            kind = None
+            if isinstance(v, ast.GeneratorExp):
+                kind = "a generator expression"
+            elif isinstance(v, ast.Call) and isinstance(v.func, ast.Name) and v.func.id in ("map", "filter", "zip", "iter", "enumerate", "reversed"):
+                kind = f"{v.func.id}(...)"
+            elif isinstance(v, ast.Call) and isinstance(v.func, ast.Attribute) and v.func.attr in ("finditer", "iterdir", "glob", "rglob"):
+                kind = f".{v.func.attr}(...)"
+            elif isinstance(v, ast.Call):
+                t_ = ctx.prog.resolve_call(outer, v)
+                if isinstance(t_, list) and len(t_) == 1 and not isinstance(t_[0].node, ast.Lambda) \
+                        and any(isinstance(y, (ast.Yield, ast.YieldFrom)) for y in walk_no_nested(t_[0].node)):
+                    kind = f"the generator {t_[0].name}(...)"
+            if kind is not None:
+                one_shot[st.targets[0].id] = kind
     for f in nested:
         own = {x.id for x in ast.walk(f.node) if isinstance(x, ast.Name) and isinstance(x.ctx, ast.Store)} | set(f.params)
         declared_nonlocal = {nm for x in walk_no_nested(f.node) if isinstance(x, ast.Nonlocal) for nm in x.names}
+        for x in ast.walk(f.node):
+            if isinstance(x, ast.Name) and isinstance(x.ctx, ast.Load) and x.id in one_shot and x.id not in own:
+                bad.append((f, x, f"walks the captured `{x.id}`, which is {one_shot[x.id]}: exhausted by the first match that reads it"))
         for x in walk_no_nested(f.node):
             if isinstance(x, ast.Nonlocal):
                 bad.append((f, x, f"rebinds {', '.join(x.names)} of the enclosing call"))
